@@ -37,6 +37,7 @@ const (
 const (
 	c17mFArrayEdge  = "C17-chunk-ends-before-first-element"
 	c17mFRemoveEdge = "C17-remove-first-at-chunk-end"
+	c17mFEmptyArray = "C17-empty-array-index"
 )
 
 func c17mExcluded(id string) bool {
@@ -373,9 +374,15 @@ func c17mGenEdit(t *rapid.T, doc map[string]interface{}, loc c17mLoc, side strin
 	case map[string]interface{}:
 		kinds = append(kinds, "add", "add", "add")
 	case []interface{}:
-		kinds = append(kinds, "append")
 		if len(v) > 0 {
-			kinds = append(kinds, "elem", "elem")
+			kinds = append(kinds, "append", "elem", "elem")
+		} else if !c17mExcluded(c17mFEmptyArray) {
+			// (the first element of an empty array is written with SetWithKey, which has finding
+			// C17-empty-array-index: the element is silently dropped from the merge result)
+			kinds = append(kinds, "append")
+		}
+		if len(kinds) == 0 {
+			kinds = append(kinds, "add")
 		}
 	}
 	e := c17mEdit{kind: rapid.SampledFrom(kinds).Draw(t, "editkind"), loc: loc}
@@ -455,64 +462,6 @@ func c17mDecode(ctx context.Context, w sql.JSONWrapper) (interface{}, error) {
 		return nil, err
 	}
 	return out, nil
-}
-
-// c17mLevel1Keys returns the keys of the address-map nodes directly above the leaf chunks of a
-// stored document (nil for a single-chunk document).
-func c17mLevel1Keys(ctx context.Context, ns tree.NodeStore, root *tree.Node) [][]byte {
-	if root.Level() == 0 {
-		return nil
-	}
-	var out [][]byte
-	_ = tree.WalkNodes(ctx, root, ns, func(ctx context.Context, n *tree.Node) error {
-		if n.Level() == 1 {
-			for i := 0; i < n.Count(); i++ {
-				out = append(out, append([]byte{}, n.GetKey(i)...))
-			}
-		}
-		return nil
-	})
-	return out
-}
-
-// c17mStoredHazards inspects the stored form of v for the chunk layouts of two findings of the
-// document half (location key format: json_location.go — state byte, then 0xFF+name per member
-// and 0xFE+varint per index; state 0 = start of value, 3 = end of value).
-func c17mStoredHazards(ctx context.Context, ns tree.NodeStore, v interface{}) (arrayEdge bool, chunkEnds map[string]bool) {
-	root, err := tree.SerializeJsonToAddr(ctx, ns, types.JSONDocument{Val: c17mCopy(v)})
-	if err != nil {
-		return false, nil
-	}
-	chunkEnds = map[string]bool{}
-	for _, k := range c17mLevel1Keys(ctx, ns, root) {
-		if len(k) >= 3 && k[0] == 0 && k[len(k)-2] == 0xFE && k[len(k)-1] == 0 {
-			arrayEdge = true
-		}
-		if k[0] == 3 {
-			chunkEnds[string(k[1:])] = true
-		}
-	}
-	return arrayEdge, chunkEnds
-}
-
-// c17mFirstMemberEndsChunk reports whether some first member (of >= 2) of an object of v, reached
-// through objects only, has a value ending exactly at a leaf chunk boundary of v's stored form.
-func c17mFirstMemberEndsChunk(v interface{}, prefix []byte, chunkEnds map[string]bool) bool {
-	m, ok := v.(map[string]interface{})
-	if !ok {
-		return false
-	}
-	ks := c17mSortedKeys(m)
-	for i, k := range ks {
-		key := append(append(append([]byte{}, prefix...), 0xFF), k...)
-		if i == 0 && len(ks) >= 2 && chunkEnds[string(key)] {
-			return true
-		}
-		if c17mFirstMemberEndsChunk(m[k], key, chunkEnds) {
-			return true
-		}
-	}
-	return false
 }
 
 type c17mOutcome struct {
@@ -627,6 +576,12 @@ func c17mOrderHazard(b, l, r interface{}) bool {
 
 func c17mCase(rt *rapid.T, rec *vh.Recorder) (kind, msg string) {
 	g := c17mGen{pad: rapid.IntRange(0, 3).Draw(rt, "padded") == 0}
+	if c17mExcluded(c17mFArrayEdge) || c17mExcluded(c17mFRemoveEdge) {
+		// MergeJSON always applies the right side's changes to a stored copy of the left document
+		// with SetWithKey/RemoveWithKey; while the two chunk-boundary findings of the document half
+		// are open, documents that span several chunks are not generated here
+		g.pad = false
+	}
 	var base, left, right interface{}
 	var editsL, editsR []string
 	nested := false
@@ -693,34 +648,6 @@ func c17mCase(rt *rapid.T, rec *vh.Recorder) (kind, msg string) {
 		classes = append(classes, "excluded:"+c17mFOrder)
 		right = c17mCopy(base)
 		editsR = []string{"(dropped)"}
-	}
-	if repr[0] || repr[1] || repr[2] {
-		ctx := context.Background()
-		ns := tree.NewTestNodeStore()
-		edge, firstEnds := false, false
-		for i, v := range []interface{}{base, left, right} {
-			if !repr[i] {
-				continue
-			}
-			e, ends := c17mStoredHazards(ctx, ns, v)
-			edge = edge || e
-			firstEnds = firstEnds || c17mFirstMemberEndsChunk(v, nil, ends)
-		}
-		ex := ""
-		if edge && c17mExcluded(c17mFArrayEdge) {
-			ex = c17mFArrayEdge
-		} else if firstEnds && c17mExcluded(c17mFRemoveEdge) {
-			ex = c17mFRemoveEdge
-		}
-		if ex != "" {
-			// the stored form of an input has the chunk layout of an open finding of the
-			// document half: hand the documents over in memory instead
-			classes = append(classes, "excluded:"+ex)
-			repr = [3]bool{false, false, false}
-		}
-		if edge {
-			classes = append(classes, "input_has_array_edge_chunk")
-		}
 	}
 	_, wantConflict := c17mMerge(base, left, right, "$")
 	if wantConflict != nil {
